@@ -287,6 +287,38 @@ static int modeCancelRace(const std::string& xml) {
 	return 0;
 }
 
+// reset() on the stepping thread while other threads keep calling receive(): nothing may be torn (events handed over around a reset belong
+// to the session that ends or to the one that begins - either is fine)
+static int modeResetRace(const std::string& xml) {
+	int N = argl("producers", 2), M = argl("events", 3000), R = argl("resets", 300);
+	Mon mon; Interpreter ip = mk(xml, &mon);
+	std::atomic<int> live(N);
+	std::vector<std::thread> th;
+	for (int i = 0; i < N; i++) th.push_back(std::thread([&, i] {
+		char n[32]; snprintf(n, 32, "prod%d", i); setName(n);
+		for (int k = 0; k < M; k++) {
+			char en[48]; snprintf(en, 48, "p%d.%d", i, k);
+			Event e(en, Event::EXTERNAL);
+			ip.receive(e);
+			if ((k & 31) == 0) sched_yield();
+		}
+		live.fetch_sub(1);
+	}));
+	setName("stepper");
+	uint64_t r = gSeed * 131 + 7; InterpreterState st = USCXML_UNDEF; int resets = 0;
+	while (resets < R && live.load() > 0) {
+		r = r * 6364136223846793005ULL + 1442695040888963407ULL;
+		int k = (int)((r >> 33) % 9);
+		for (int i = 0; i < k && st != USCXML_FINISHED; i++) st = ip.step(0);
+		rec("RESET", "begin"); ip.reset(); rec("RESET", "end"); resets++; st = USCXML_UNDEF;
+	}
+	for (auto& t : th) t.join();
+	for (int i = 0; i < 20; i++) { st = ip.step(0); if (st == USCXML_FINISHED) break; }
+	rec("DONE", "resets=" + std::to_string(resets));
+	rec("DESTROY", "begin"); ip = Interpreter(); rec("DESTROY", "end");
+	return 0;
+}
+
 int main(int argc, char** argv) {
 	gT0 = std::chrono::steady_clock::now();
 	if (argc < 3) { fprintf(stderr, "usage: vthr <mode> <chart> key=value...\n"); return 2; }
@@ -303,6 +335,7 @@ int main(int argc, char** argv) {
 		else if (mode == "timers") rc = modeTimers(xml);
 		else if (mode == "churn") rc = modeChurn(xml);
 		else if (mode == "cancelrace") rc = modeCancelRace(xml);
+		else if (mode == "resetrace") rc = modeResetRace(xml);
 		else { fprintf(stderr, "unknown mode\n"); rc = 2; }
 	} catch (Event e) { rec("THROW", e.name); rc = 3; }
 	catch (std::exception& e) { rec("THROWSTD", e.what()); rc = 3; }
